@@ -107,7 +107,9 @@ static void *own_worker(void *va) {
     unsigned char data[211]; for (int i = 0; i < 211; i++) data[i] = (unsigned char)(i * 3 + a->tid * 29 + (i >> 3));
     for (int r = 0; r < a->rounds; r++) {
         /* `same`: all threads use equally shaped instances of the hd=4 flat XOR code in this round */
-        const int *sh = a->same ? OWN_SHAPES[6 + (r & 1)] : OWN_SHAPES[(a->tid + r) % N_OWN];
+        /* `same` 1: equally shaped hd=4 flat XOR instances; 2: only rs_vand instances, so that every round
+           starts with concurrent first-ever creates (shared GF tables built) and ends with concurrent last destroys */
+        const int *sh = a->same == 1 ? OWN_SHAPES[6 + (r & 1)] : (a->same == 2 ? OWN_SHAPES[(a->tid + r) % 2] : OWN_SHAPES[(a->tid + r) % N_OWN]);
         struct ec_args ar; memset(&ar, 0, sizeof ar); ar.k = sh[1]; ar.m = sh[2]; ar.hd = sh[3]; ar.ct = CHKSUM_CRC32;
         pthread_barrier_wait(&g_bar);                       /* creates collide */
         int d = liberasurecode_instance_create((ec_backend_id_t)sh[0], &ar);
@@ -123,7 +125,7 @@ static void *own_worker(void *va) {
                     /* all data sets of the tolerated size (own mode "same": in lockstep), else the first fragment */
                     cfg_t c = { sh[0], sh[1], sh[2], sh[3], 2 };
                     int tol = cfg_tolerance(c); if (tol > 3) tol = 3; if (tol > c.k) tol = c.k;
-                    int reps = a->same ? 40 : 1;
+                    int reps = a->same == 1 ? 40 : 1;
                     uint64_t pat = (1ull << tol) - 1;
                     for (int q = 0; q < reps; q++) {
                         char *fr[80]; int n = 0;
@@ -272,6 +274,16 @@ void suite_conc(int tier) {
         res_end(bad == 0 ? "ok" : "DIFFERENT");
         if (bad) oracle_fail("C18", "%d results of concurrent shared-descriptor calls differ from the sequential ones (be=%d, %d threads)", bad, shared[ci].be, T);
         stat_add("conc.shared_runs", 1);
+    }
+    /* no instance left alive: the reference-counted GF tables must be built and torn down by the racing threads */
+    cfg_release_all();
+    for (unsigned ti = 0; ti < (tier ? 5u : 3u); ti++) {
+        int T = tcounts[ti];
+        op_begin("conc ownrs %d", T); op_sep();
+        int bad = run_own(T, tier ? 200 : 60, 2);
+        res_end(bad == 0 ? "ok" : "DIFFERENT");
+        if (bad) oracle_fail("C18", "%d failures in concurrent first-create / last-destroy of rs_vand instances (%d threads)", bad, T);
+        stat_add("conc.ownrs_runs", 1);
     }
     for (unsigned ti = 0; ti < (tier ? 5u : 3u); ti++) {
         int T = tcounts[ti];
